@@ -9,3 +9,8 @@ import QlibcModel.Props.C05
 #print axioms Qlibc.Props.C05.remove_unlinks_only_k
 #print axioms Qlibc.Props.C05.walk_complete
 #print axioms Qlibc.Props.C05.putint_getint
+#print axioms Qlibc.Props.C05.getint_spec
+#print axioms Qlibc.Props.C05.atoll_reads_base10
+#print axioms Qlibc.Props.C05.null_args_rejected
+#print axioms Qlibc.Props.C05.inv_is_identity
+#print axioms Qlibc.Props.C05.valid_args_are_ops
